@@ -16,6 +16,13 @@ NOTES = ("Every check = TLA+ specification under spec/ checked by TLC + conforma
          "known_findings.json lists genuine defects (known / fixed).")
 NOT_APPLICABLE = {}
 CHECKS = {
+    "C13": {
+        "level": "model_checking",
+        "technique": "TLA+ spec TableGrid.tla (slot assignment PlaceCell/NextRow/Finish with rowspan clamp and fixed-layout cut; declarative GridConsistent) model-checked by TLC; every table laid out by layout.Layout, slot assignment compared, and the real geometry validated as a trace by TLC against GridConsistent (TableGridTrace.tla)",
+        "text": "TLC explores the slot assignment on every bounded table (invariants InRow, RowOrder, StartFree, SharedOnlyByRunningInto; liveness Terminates) and "
+                "emits tables with their slots; the real GridX/colspan/rowspan must agree and the real columns, rows and cell rectangles must satisfy every clause of GridConsistent.",
+        "note": "LTR, single row group, no page break inside the table; known findings: border-spacing of columns without originating cell not counted in the table width; one width-distribution corner case.",
+    },
     "C02": {
         "level": "model_checking",
         "technique": "TLA+ spec Flow.tla (non-deterministic fragmenter; invariant Conserves = every behaviour satisfies the declarative statement Accept) model-checked by TLC; TLC-generated documents laid out and drawn by the real code, the real page token sequences validated as traces by TLC (FlowTrace.tla, PaginationTrace.tla), drawn tokens compared with laid-out tokens on the same run (hook VerifPageBox)",
